@@ -495,8 +495,10 @@ fn main() {
         for_all_layouts!(reg!(&mut c;));
         let txt = std::fs::read_to_string(path).expect("read literals");
         for line in txt.lines().filter(|l| !l.trim().is_empty()) {
-            let v: serde_json::Value = serde_json::from_str(line).expect("json");
-            let l = v["L"].as_array().expect("L");
+            let v: serde_json::Value = match serde_json::from_str(line) { Ok(v) => v, Err(_) => continue };
+            // only literal records ({"L","rx","s"}; recorded parse events have the same fields)
+            if v.get("s").and_then(|s| s.as_array()).is_none() || v.get("rx").is_none() || v.get("steps").is_some() { continue; }
+            let l = match v.get("L").and_then(|l| l.as_array()) { Some(l) if l.len() == 3 => l, _ => continue };
             let lay = Lay { s: l[0].as_u64() == Some(1), w: l[1].as_u64().unwrap_or(0) as u32, f: l[2].as_u64().unwrap_or(0) as u32 };
             let rx = v["rx"].as_u64().unwrap_or(10) as u32;
             let bytes: Vec<u8> = v["s"].as_array().map(|a| a.iter().map(|b| b.as_u64().unwrap_or(0) as u8).collect()).unwrap_or_default();
